@@ -64,6 +64,12 @@ func replicate(run *vh.Run, h appdrv.History, reps int, key string) bool {
 				}
 			}
 			r1, r2 := appdrv.RawResp(a1, c), appdrv.RawResp(a2, c)
+			// the second replica writes its state file at commits of its own choosing
+			if c.Kind == "commit" && tmpDir != "" && i != restartAt && run.RNG.Chance(1, 3) {
+				a2.Gobpath = filepath.Join(tmpDir, "c09.gob")
+				_ = a2.PersistToDisk()
+				a2.Gobpath = ""
+			}
 			if i == restartAt {
 				a2.Gobpath = filepath.Join(tmpDir, "c09.gob")
 				if err := a2.PersistToDisk(); err == nil {
@@ -228,7 +234,10 @@ func main() {
 	for i := 0; i < n; i++ {
 		g := &appdrv.Gen{U: u, R: run.RNG.Fork(), Weird: i%5 == 0}
 		var h appdrv.History
-		if i%5 == 4 {
+		if i%10 == 9 {
+			h, _, _ = g.ManyEonsHistory(4 + run.RNG.Intn(4))
+			run.Dist["history:many-eons"]++
+		} else if i%5 == 4 {
 			h, _, _ = g.DKGHistory(5+run.RNG.Intn(6), 8)
 		} else if i%2 == 1 {
 			h, _, _ = g.TransitionHistory(3+run.RNG.Intn(6), 8)
